@@ -91,32 +91,49 @@ func (dc *agentConnection) Read(b []byte) (int, error) {
 	}
 }
 
+// maxPayloadSize is the most a single data message carries: a frame's
+// length and a message's payload length are 16-bit fields.
+const maxPayloadSize = 32 * 1024
+
 func (dc *agentConnection) Write(b []byte) (int, error) {
 	dc.m.Lock()
 	defer dc.m.Unlock()
-
-	payload := make([]byte, len(b))
-
-	copy(payload, b)
-
-	p := ReadWriteTCP{
-		Laddr:   dc.LocalAddr(),
-		Raddr:   dc.RemoteAddr(),
-		Payload: payload[:],
-	}
 
 	after := noDeadline
 	if !dc.writeTimeout.IsZero() {
 		after = time.After(time.Until(dc.writeTimeout))
 	}
 
-	select {
-	case <-after:
-		return 0, ErrTimeout
-	case dc.out <- p:
-	}
+	written := 0
 
-	return len(b), nil
+	for {
+		chunk := b[written:]
+		if len(chunk) > maxPayloadSize {
+			chunk = chunk[:maxPayloadSize]
+		}
+
+		payload := make([]byte, len(chunk))
+
+		copy(payload, chunk)
+
+		p := ReadWriteTCP{
+			Laddr:   dc.LocalAddr(),
+			Raddr:   dc.RemoteAddr(),
+			Payload: payload[:],
+		}
+
+		select {
+		case <-after:
+			return written, ErrTimeout
+		case dc.out <- p:
+		}
+
+		written += len(chunk)
+
+		if written == len(b) {
+			return written, nil
+		}
+	}
 }
 
 func (dc *agentConnection) Close() error {
